@@ -84,7 +84,7 @@ def run(rep):
         rep.sample({k: rej[len(rej) // 2][k] for k in ('cls', 'hex', 'imm', 'exact')})
     slim = []
     for e in events:
-        s = {k: e[k] for k in ('ev', 'cls', 'unit', 'len', 'positive', 'imm', 'mut', 'exact', 'reparse')}
+        s = {k: e[k] for k in ('ev', 'cls', 'unit', 'len', 'positive', 'must', 'imm', 'mut', 'exact', 'reparse')}
         s['head'] = []
         slim.append(s)
     traces = [slim[i:i + 4000] for i in range(0, len(slim), 4000)]
